@@ -182,6 +182,9 @@ func (rt readTxn) ID() string {
 //
 // If a value already exists for the resource ID, id, an error is returned.
 func (wt writeTxn) Create(v interface{}) error {
+	if v == nil {
+		return errors.New("create value is nil")
+	}
 	vv := reflect.ValueOf(v)
 	t := wt.st.t
 	if t == nil {
@@ -223,6 +226,9 @@ func (wt writeTxn) Create(v interface{}) error {
 //
 // If the value does not exist, res.ErrNotFound is returned.
 func (wt writeTxn) Update(v interface{}) error {
+	if v == nil {
+		return errors.New("update value is nil")
+	}
 	vv := reflect.ValueOf(v)
 	t := wt.st.t
 	if t == nil {
